@@ -132,15 +132,15 @@ pub fn worker_main(args: &[String]) -> i32 {
         let r = run_episode(&ep, &pristine);
         if r.hung {
             // the stuck task threads cannot be recovered: hand over what we have and end this process
-            let _ = writeln!(out, "{{\"hang\":{}}}", idx);
-            let _ = writeln!(out, "{}", json!({"stats": ws}));
+            let _ = writeln!(out, "\n{{\"hang\":{}}}", idx);
+            let _ = writeln!(out, "\n{}", json!({"stats": ws}));
             let _ = out.flush();
             std::process::exit(3);
         }
         let nontrivial = r.sched.switches_inside_op > 0 || r.sched.crashes > 0;
         let _ = writeln!(
             out,
-            "{{\"ep\":{},\"t\":\"{:016x}\",\"o\":\"{:016x}\",\"nt\":{}}}",
+            "\n{{\"ep\":{},\"t\":\"{:016x}\",\"o\":\"{:016x}\",\"nt\":{}}}",
             idx, r.trace_hash, r.outcome_hash, nontrivial
         );
         ws.add(&ep, &r);
@@ -150,13 +150,13 @@ pub fn worker_main(args: &[String]) -> i32 {
             if *n < 3 {
                 let variant = if cfg!(feature = "facade") { "facade" } else { "plain" };
                 // worker_start = first episode of this process image: the prefix a replay may need
-                let _ = writeln!(out, "{}", json!({"found": {"violation": v, "episode": ep, "worker_start": start, "worker_stride": stride, "variant": variant}}));
+                let _ = writeln!(out, "\n{}", json!({"found": {"violation": v, "episode": ep, "worker_start": start, "worker_stride": stride, "variant": variant}}));
             }
             *n += 1;
         }
     }
     ws.process_starts += 1;
-    let _ = writeln!(out, "{}", json!({"stats": ws}));
+    let _ = writeln!(out, "\n{}", json!({"stats": ws}));
     let _ = out.flush();
     crate::spec::remove_logo_dir();
     let left = count - done.min(count);
@@ -230,7 +230,7 @@ pub fn exec_main(args: &[String]) -> i32 {
     for (i, ep) in episodes.iter().enumerate() {
         let r = run_episode(ep, &pristine);
         if r.hung {
-            println!("{}", json!({"violation": null, "hang": ep.index, "results": results}));
+            println!("\n{}", json!({"violation": null, "hang": ep.index, "results": results}));
             std::process::exit(3);
         }
         if let Some(vv) = &r.violation {
